@@ -6,6 +6,8 @@ COMMON_ASSUME = [
 
 PROPS = {}
 
+FS_STUBS_EARLY = ["file system: engine-native model (namespace + sparse pages of byte terms; POSIX offsets/short reads/EOF; concrete sizes and offsets per path, symbolic contents)", "MD5: uninterpreted digest per content vector; equal content => equal digest; collision freedom", "clock: concrete strictly increasing instants", "logging/metrics: no-ops"]
+
 PROPS["C28"] = dict(
     explanation="Bounded symbolic execution (gosmt: go/ssa interpreter + z3) of the real serializeTG, io.Serialize, io.DSVToBytes/toBytes, ParseTGData, io.DSVFromBytes, wal.NewWTSet, walKeyToFullPath/filepath.Join on symbolic write commands; the round-trip equalities are assertions decided by the solver for every value inside the bounds; counterexamples are replayed against the natively compiled harness.",
     runs=[dict(pkg="executor", files=["c28_tg.go"], entries=["VerifC28RoundTrip", "VerifC28Boundary"], must_reach=["entered"])],
@@ -18,11 +20,14 @@ PROPS["C28"] = dict(
 )
 
 PROPS["C06"] = dict(
-    explanation="Bounded symbolic execution of the real WAL parsing code on arbitrary byte strings: ParseTGData and io.DSVFromBytes (every implicit bounds check, make() and conversion is an obligation decided by z3 over all byte values for each length in the bound).",
-    runs=[dict(pkg="executor", files=["c06_parse.go"], entries=["VerifC06ParseTG", "VerifC06ParseDSV"], must_reach=["entered"])],
-    bounds=["ParseTGData on every byte string of length 0..26 (thorough 0..40)", "DSVFromBytes on every byte string of length 0..12 (thorough 0..24)"],
-    outside=["longer inputs", "allocation failure for huge WTCount (reported as makeslice panic when the length is out of range)"],
-    stubs=[], assumptions=COMMON_ASSUME,
+    explanation="Bounded symbolic execution of the real WAL reading code on arbitrary bytes. (a) ParseTGData and io.DSVFromBytes on every byte string up to a length: every implicit bounds check, make() and conversion is an obligation. (b) Whole start-up replay over the file-system model - TakeOverWALFile + WALFileType.Replay (wal.ReadMessageID/ReadStatus/ReadTGData, checksum validation, ParseTGData, replayTGData) - of a WAL file made of a well-formed header followed by arbitrary bytes, resp. by one transaction record whose length field is consistent and whose body, checksum validity and trailing bytes are arbitrary: no panic, the scan terminates. (c) An intact committed transaction (written by the real writer, its primary write undone so that replay is observable) followed by damage - up to 10 arbitrary bytes, or one or two transaction records with wrong checksums and up to 2 further bytes: after restart the row of the intact transaction must be back and earlier data untouched.",
+    runs=[dict(pkg="executor", files=["c06_parse.go"], entries=["VerifC06ParseTG", "VerifC06ParseDSV"], must_reach=["entered"]),
+          dict(pkg="executor", files=["c08_fixed.go", "c09_variable.go", "c11_range.go", "c01_walsim.go", "c06_replay.go"], entries=["VerifC06Replay", "VerifC06ReplayTG", "VerifC06IntactPrefix"], must_reach=["entered"], opts=dict(timeout=30))],
+    bounds=["ParseTGData on every byte string of length 0..26 (thorough 0..40)", "DSVFromBytes on every byte string of length 0..12 (thorough 0..24)",
+            "replay of header ++ 0..20 arbitrary bytes (thorough 0..30)", "replay of header ++ TGDATA record with body length 8..22 (thorough 8..34; shorter lengths are rejected as insane and fall under the arbitrary-bytes scenario), checksum valid or not, 0..2 trailing bytes",
+            "intact transaction ++ damage: 0..10 arbitrary bytes, or 1..2 records with wrong checksum (body 7..9 bytes) ++ 0..2 bytes; fixed-length 1D bucket, one row"],
+    outside=["longer inputs", "allocation failure: a write-set count between 2^16 and 2^48 in a record handed directly to ParseTGData makes the process allocate until the OS kills it (excluded by assumption; larger counts panic in make() and are reported)", "damage inside the intact transaction itself, damage that forges a valid checksum (MD5 collision freedom is assumed)", "variable-length buckets in the intact-prefix scenario"],
+    stubs=FS_STUBS_EARLY, assumptions=COMMON_ASSUME,
 )
 
 PROPS["C10"] = dict(
